@@ -70,6 +70,8 @@ Skeleton ==
 Place(a, val) == Nest((IF a.top THEN <<>> ELSE <<"services", "a">>) \o a.p, val)
 Base(a, val) == Over(Skeleton, Place(a, val), <<>>)
 
+\* a document that does not mention the attribute at all
+EmptyDocFor(a) == IF a.top THEN M1("services", M1("a", M1("image", S("img")))) ELSE M1("services", M1("a", M1("hostname", S("h"))))
 VARIABLE cs
 Case(a, b, overs) ==
   LET base == Base(a, b) IN
@@ -83,6 +85,9 @@ Next == /\ IsSeed
            \/ \E b \in a.alts : cs' = Case(a, b, <<Place(a, Tagged(Null, "reset"))>>)
            \/ \E b \in a.alts : \E o \in a.alts : cs' = Case(a, b, <<Place(a, Tagged(Null, "reset")), Place(a, o)>>)
            \/ Triples /\ \E b \in a.alts : \E o1 \in a.alts : \E o2 \in a.alts : cs' = Case(a, b, <<Place(a, o1), Place(a, o2)>>)
+           \* a tag in a document that is not the last one: its effect must not outlive that document
+           \/ Triples /\ \E b \in a.alts : \E o1 \in a.alts : \E o2 \in a.alts : cs' = Case(a, b, <<Place(a, Tagged(o1, "override")), Place(a, o2)>>)
+           \/ Triples /\ \E b \in a.alts : \E o2 \in a.alts : cs' = Case(a, b, <<Place(a, Tagged(Null, "reset")), EmptyDocFor(a), Place(a, o2)>>)
 Spec == Init /\ [][Next]_cs
 
 \* ---- laws of the specification
